@@ -8,7 +8,9 @@ layout / speclayout : one line = a type in prefix syntax
          | G <k> A*k <bit width|-> <named 0|1> T      with A ::= c <n> | t T     (k `_Alignas` specifiers in source order)
   var / specvar     : one line = `<k> A*k T` : alignment of an object declared `_Alignas(..)* T x;`  answer `ok <align>`
   answer `ok <size> <align>` followed, for struct/union, by ` | <offset> <bit_offset>` per member
-  (speclayout: ` | <first bit> <unit offset> <bit in unit>`), or `fail divzero`, or `bad-op`.
+  (speclayout: ` | <first bit> <unit offset> <bit in unit>`), or `fail divzero`, or `diag align` / `diag bitfield`
+  (model: the diagnostic of attribute_list / struct_members that comes first in source order; speclayout: `diag` when the
+  specification rejects the declaration), or `bad-op`.
 -/
 import ChibiVerif.Model.Layout
 import ChibiVerif.Spec.LayoutSpec
@@ -88,6 +90,12 @@ end
 def showLayout (l : Layout) : String :=
   s!"ok {l.size} {l.align}" ++ String.join (l.placed.map fun p => s!" | {p.offset} {p.bitOffset}")
 
+/-- `fail divzero` (SIGFPE in cc1) | `diag align` | `diag bitfield` (the two located diagnostics) -/
+def showTyFail : TyFail → String
+  | .divByZero => "fail divzero"
+  | .badAlign => "diag align"
+  | .bitfieldType => "diag bitfield"
+
 def showSpecLayout (l : ChibiVerif.Spec.Layout.SLayout) : String :=
   s!"ok {l.size} {l.align}" ++ String.join (l.placed.map fun p => s!" | {p.firstBit} {p.unitOffset} {p.bitInUnit}")
 
@@ -118,13 +126,13 @@ def layoutLine (line : String) : String :=
   | some (t, []) =>
     match t.layout with
     | .ok l => showLayout l
-    | .error .divByZero => "fail divzero"
+    | .error e => showTyFail e
   | _ => "bad-op"
 
 def speclayoutLine (line : String) : String :=
   match parseTy (words line) with
   | some (t, []) =>
-    showSpecLayout (ChibiVerif.Spec.Layout.specTy t)
+    if ChibiVerif.Spec.Layout.specAccepted t then showSpecLayout (ChibiVerif.Spec.Layout.specTy t) else "diag"
   | _ => "bad-op"
 
 def varLine (spec : Bool) (line : String) : String :=
@@ -140,7 +148,7 @@ def varLine (spec : Bool) (line : String) : String :=
           if spec then s!"ok {ChibiVerif.Spec.Layout.specVarAlign as t}"
           else match varAlign as t with
             | .ok a => s!"ok {a}"
-            | .error .divByZero => "fail divzero"
+            | .error e => showTyFail e
         | _ => "bad-op"
       | none => "bad-op"
   | _ => "bad-op"
